@@ -352,6 +352,7 @@ func TestVerifC16(t *testing.T) {
 		os.Remove(path)
 	}
 	vSameIdAdds(t, r, e)
+	vJitter(t, r, e)
 	vEverySecond(t, r, e)
 	vEvictionSameScan(t, r, e)
 	vConcurrent(t, r, e)
@@ -512,6 +513,76 @@ func vEverySecond(t *testing.T, r *Report, e Env) {
 	r.Count("crolt_no_occurrence_runs", 1)
 	if extra > 0 {
 		r.Violate("", fmt.Sprintf("a job whose schedule has no occurrence (30 February) sent %d requests in 10 polls", extra), J{"phase": "no-occurrence", "add_error": fmt.Sprint(aerr)})
+	}
+}
+
+// vJitter: with a jitter configured (the default service has one) the requests of recurring jobs are
+// spread out, but none goes out before the occurrence it is for, and none goes out twice.
+func vJitter(t *testing.T, r *Report, e Env) {
+	var mu sync.Mutex
+	at := map[string][]time.Time{}
+	srv := httptest.NewServer(http.HandlerFunc(func(w http.ResponseWriter, req *http.Request) {
+		mu.Lock()
+		at[req.URL.Path] = append(at[req.URL.Path], time.Now())
+		mu.Unlock()
+		fmt.Fprintln(w, "ok")
+	}))
+	defer srv.Close()
+	path := filepath.Join(e.Out, fmt.Sprintf("crolt-jitter-%d.db", e.Batch))
+	os.Remove(path)
+	db, err := bolt.Open(path, 0600, &bolt.Options{Timeout: 5 * time.Second})
+	if err != nil {
+		t.Fatal(err)
+	}
+	defer func() { db.Close(); os.Remove(path) }()
+	c, err := NewCron(db, 1, 1000*time.Millisecond, 700*time.Millisecond)
+	if err != nil {
+		t.Fatal(err)
+	}
+	for i := 0; i < 4; i++ {
+		j, _ := NewJob("acct", fmt.Sprintf("even%d", i), "*/2 * * * * * *")
+		j.URL = srv.URL + fmt.Sprintf("/even%d", i)
+		if err := c.Add(j); err != nil {
+			r.Violate("", "Add failed: "+err.Error(), J{"phase": "jitter"})
+			return
+		}
+	}
+	start := time.Now()
+	slow := 0
+	for time.Since(start) < 6300*time.Millisecond {
+		t0 := time.Now()
+		if err := c.DB.Update(c.work("0")); err != nil {
+			r.Violate("", "work() failed: "+err.Error(), J{"phase": "jitter"})
+			return
+		}
+		if time.Since(t0) > 300*time.Millisecond {
+			slow++
+		}
+		time.Sleep(40 * time.Millisecond)
+	}
+	r.Case(true, fmt.Sprint("jitter", e.Batch))
+	r.Count("crolt_jitter_runs", 1)
+	if slow > 0 {
+		r.Inconclusive("slow polls")
+		return
+	}
+	mu.Lock()
+	defer mu.Unlock()
+	// occurrences are the even seconds; a request in the 500 ms before one is early for it (and too late,
+	// by more than the whole jitter, for the one before)
+	var early []string
+	total := 0
+	for p, ts := range at {
+		total += len(ts)
+		for _, f := range ts {
+			ms := f.UnixNano() / 1e6 % 2000
+			if ms >= 1500 {
+				early = append(early, fmt.Sprintf("%s %d ms before an occurrence", p, 2000-ms))
+			}
+		}
+	}
+	if len(early) > 0 || total > 4*4 {
+		r.Violate("", fmt.Sprintf("with a jitter of 1 s, %d of %d requests of every-two-seconds jobs went out before their occurrence (at most %d occurrences fall into the run)", len(early), total, 4*4), J{"phase": "jitter", "early": early, "requests": total})
 	}
 }
 
